@@ -380,3 +380,61 @@ def throw_first(progs):
                                '%s may throw after an operand of swap2 has already been modified: a failing exchange does not leave both vectors with '
                                'their original contents' % describe(n)[:120], where=f['pname'], unit=prog.uname))
     return rr
+
+
+# ------------------------------------------------------------------------------ STALE-READ (exchanges read before they write)
+class StaleClient(Client):
+    READS = {'size', 'capacity', 'msize', 'mcapacity', 'begin', 'end', 'dynStorage', 'dyn'}
+    WRITES = {'setSize', 'setDynSizeAndCapacity', 'incrSize', 'decrSize', 'swapDynStorage', 'setDyn'}
+
+    def __init__(self, linit, report):
+        self.linit, self.report = linit, report
+
+    def is_event(self, n):
+        return n.get('k') == 'call'
+
+    def _obj(self, n):
+        if n.get('obj') is None:
+            return 'this'
+        kind, r = A.root(n['obj'], self.linit)
+        return 'this' if kind == 'this' else (r.get('name') or kind)
+
+    def event(self, n, s):
+        sn = A.cshort(n)
+        if not n.get('method') or not n.get('amc'):
+            return [('n', s)]
+        if sn in self.WRITES:
+            w = {self._obj(n)}
+            if sn == 'swapDynStorage' and n.get('args'):
+                kind, r = A.root(n['args'][0], self.linit)
+                w.add('this' if kind == 'this' else (r.get('name') or kind))
+            # the storage exchange does not change what size()/capacity() report; only the words do
+            if sn in ('swapDynStorage', 'setDyn'):
+                return [('n', s | {('wp', o) for o in w})]
+            return [('n', s | {('ww', o) for o in w})]
+        if sn in ('size', 'capacity', 'msize', 'mcapacity') and ('ww', self._obj(n)) in s:
+            self.report(n, self._obj(n), 'size / capacity')
+        if sn in ('begin', 'end', 'dynStorage', 'dyn') and (('wp', self._obj(n)) in s):
+            self.report(n, self._obj(n), 'storage')
+        return [('n', s)]
+
+
+def stale_read(progs):
+    rr = RuleResult('STALE-READ', 'an exchange reads the size, capacity and storage of both operands before it writes either: no read of an operand\'s '
+                                  'size / capacity after that operand\'s bookkeeping has been overwritten in the same exchange')
+    for prog in progs:
+        for f in prog.amc_functions():
+            if f.get('body') is None or short(f['name']) not in ('swap2_impl',):
+                continue
+            linit = A.local_inits(f['body'])
+            sites = {}
+
+            def report(n, obj, what, sites=sites):
+                sites[id(n)] = (n, obj, what)
+            Engine(StaleClient(linit, report)).run(f['body'], frozenset(), f.get('inits'))
+            rr.instance('%s|%s' % (f['key'], f['pname'][:200]), {'function': f['pname'][:200], 'stale_reads': len(sites)})
+            for n, obj, what in sites.values():
+                rr.add(Finding('STALE-READ', '%s|%s|%s' % (f['key'], obj, A.cshort(n)), prog.site(f, n),
+                               '%s of `%s` is read after this exchange has already overwritten it: the other operand receives the new value instead of '
+                               'the original one (swap without a temporary)' % (A.cshort(n), obj), where=f['pname'], unit=prog.uname))
+    return rr
